@@ -13,6 +13,9 @@ CLAIMED = {
 CLAIMED['C02'] = ("reference-model monitor: exact rational slab-arrangement DE-9IM oracle with definitional locate, compared character by character with Relate and the nine predicates on generated operand pairs",
   "Exploration by runtime monitoring: thousands of generated ordered operand pairs per run (all 8x8 operand kinds incl. typed empties and oracle-certified disjoint collections; dense lattices, large lattice, general-position floats) are passed to the real Relate/predicates and judged against an independent exact-arithmetic DE-9IM; the evidence lists the distinct matrices observed. Holds for the pairs observed.",
   "trusts verif/exact (self-checked: transpose, arrangement consistency) and the harness's pattern table typed from the function documentation", "DESIGN.md §3 C02")
+CLAIMED['C01'] = ("reference-model monitor: exact rational arrangement oracle judging every result at every arrangement cell (membership, exact area, lineal remainder, isolated points), shape rules, Boolean laws through the same oracle, plus the overlay invariant hook",
+  "Exploration by runtime monitoring: generated operand pairs of all 8x8 operand kinds (seven types + typed empties, collections with overlapping members), targeted collection families and UnionMany lists on dense lattices, the large lattice and general-position floats are run through the six entry points; each result is judged against the exact Boolean decomposition of the joint arrangement and the hook VerifOverlayInvariants checks the half-edge structure of each overlay. Holds for the executions observed.",
+  "trusts verif/exact (self-consistency checked per case) and the fixed tolerances tau=1e-9*M / sep>=1e-7*M stated in DESIGN.md; near-degenerate inputs below the clearance bound are excluded and counted", "DESIGN.md §3 C01")
 REASONS = {}
 hooks_commits = subprocess.run(['git','-C','/repo','log','--format=%h %s'],capture_output=True,text=True).stdout.splitlines()
 hook_commits = [l.split()[0] for l in hooks_commits if l.split(' ',1)[1].startswith('verif hook')]
